@@ -488,13 +488,23 @@ Definition run_hist_extract (prop : string) (schemas : list (string * schema)) (
           match out with
           | HOk o m =>
               chk (match o with None => true | Some _ => false end) "prop C07 applying back what was extracted changes no field" @@
-              chk (Nat.eqb (List.length m) (List.length mobs) &&
-                   forallb (fun o : string * (string * bool * list path) =>
-                              match assoc_get (fst o) m with
-                              | Some (v2, a2, p2) => String.eqb (fst (fst (snd o))) v2 && Bool.eqb (snd (fst (snd o))) a2 && paths_eqb (snd (snd o)) p2
-                              | None => false
-                              end) mobs)
-                  "prop C07 applying back what was extracted changes no ownership record"
+              (let same_rec (o : string * (string * bool * list path)) :=
+                 match assoc_get (fst o) m with
+                 | Some (v2, a2, p2) => String.eqb (fst (fst (snd o))) v2 && Bool.eqb (snd (fst (snd o))) a2 && paths_eqb (snd (snd o)) p2
+                 | None => false
+                 end in
+               let all_same := Nat.eqb (List.length m) (List.length mobs) && forallb same_rec mobs in
+               (* the one known deviation: the extract spells out a defaulted key field
+                  that the live object holds but the manager never applied *)
+               let only_default_keys :=
+                 Nat.eqb (List.length m) (List.length mobs) &&
+                 forallb (fun o : string * (string * bool * list path) => String.eqb (fst o) mgr || same_rec o) mobs &&
+                 psubset (record_paths mobs mgr) (record_paths m mgr) &&
+                 forallb (fun p => pmem p (record_paths mobs mgr) || is_key_field_path p) (record_paths m mgr) in
+               if all_same then []
+               else if only_default_keys then
+                 ["prop C07 applying back what was extracted adds a defaulted key field to the manager's record"]
+               else ["prop C07 applying back what was extracted changes no ownership record"])
           | _ => ["prop C07 applying back what was extracted failed"]
           end
         else [] in
